@@ -176,7 +176,9 @@ NASTY = {
                # findings: only a file with a function above 30 lines reaches the path arithmetic of the report
                ("long.py", ("def long_one(a):\n" + "".join(f"    v{i} = {i}\n" for i in range(40)) + "\ndef huge(a):\n" + "".join(f"    w{i} = {i}\n" for i in range(70))).encode()),
                ("twice.py", ("def one(a):\n" + "".join(f"    v{i} = {i}\n" for i in range(40)) + "\ndef two(a):\n" + "".join(f"    w{i} = {i}\n" for i in range(40)) + "\ndef three(a):\n" + "".join(f"    u{i} = {i}\n" for i in range(40))).encode()),
-               ("high.py", b"# " + bytes(range(0x80, 0x100)) + b"\ndef f():\n    return 1\n")],
+               ("high.py", b"# " + bytes(range(0x80, 0x100)) + b"\ndef f():\n    return 1\n"),
+               # several functions above 60 lines, one of them unfinished: the exit status says "some", not how many
+               ("many.py", ("".join(f"def huge{k}(a):\n" + "".join(f"    v{i} = {i}\n" for i in range(70)) + "\n" for k in range(3)) + "def cut(a):\n" + "".join(f"    w{i} = (\n" for i in range(70))).encode())],
     "JavaScript": [("arrow.js", b"const f = (cb = () => 0) => {\n  return cb();\n};\n"), ("latin.js", "// r\xe9sum\xe9\nfunction f() {\n  return 1;\n}\n".encode("latin-1"))],
     "C": [("deep.c", ("int f(void) {\n" + "{" * 60 + "\n").encode()), ("latin.c", "/* \xe9 */\nint f(void) {\n  return 1;\n}\n".encode("latin-1"))],
     "Java": [("Un.java", b"class K { void f(int a) throws { new R() { void g() {"),
